@@ -24,14 +24,14 @@ def c20_jobs(tier):
 
 PROPS['C20'] = dict(
     level='exploration', jobs=c20_jobs,
-    rule=('one case = one generated system (5/7/9-point diffusion, shifted diffusion, upwind convection-diffusion; 36-900 unknowns) and one random parameter set '
+    rule=('one case = one generated system (5/7/9-point diffusion, shifted diffusion, upwind convection-diffusion; 36-900 unknowns; 40% of them with the entries of every row randomly permuted or reversed = valid CRS with unsorted rows, the replacement matrix of solve_mtx permuted independently) and one random parameter set '
           'expressible through the C API (component names via sets, integers/booleans via seti, reals via setf or as text, a random subset moved into a JSON file '
           'written by the harness, sometimes overridden by a setter; every 36th/54th case passes a NULL parameter handle). precond cases cycle through all 36 '
           '(coarsening, relaxation) cells, solver cases through the 9 solvers x 4 coarsenings. Non-trivial: the result is finite and the solve moved x '
           '(typed_twin / maxiter: at least one iteration; lifecycle: at least one create/destroy pair). distinct = distinct (sub-check, descriptor) hash.'),
     exhaustive_note='all 16 functions of lib/amgcl.h are called; all 36 (coarsening, relaxation) cells and all 9 solver names through both index bases',
     min_nontrivial=dict(quick=800, thorough=8000),
-    require_obs=dict(quick=['create_destroy_pairs', 'failing_creates'], thorough=['create_destroy_pairs', 'failing_creates']),
+    require_obs=dict(quick=['create_destroy_pairs', 'failing_creates', 'unsorted_row_systems'], thorough=['create_destroy_pairs', 'failing_creates', 'unsorted_row_systems']),
     assumptions=COMMON_ASSUME + ['Boost.PropertyTree / read_json are trusted (both sides of the differential use them)'],
     technique=('differential oracle, bitwise: C handle API vs the equivalent C++ run-time classes with the same property-tree operations, 1-based vs 0-based entry points, '
                'and C API vs a compile-time composed solver with typed parameters; behavioural maxiter oracle; ASan/UBSan on exact-size heap blocks; LeakSanitizer on create/destroy pairs'),
